@@ -1334,6 +1334,24 @@ func runE2E(r *hx.Rng, mw *modeWorld, mode string, c2a, a2c int) *E2ECase {
 	up := append(append([]byte{}, hello...), pattern(r.U64(), c2a)...)
 	down := pattern(r.U64(), a2c)
 	csplits, asplits := genSplits(r), genSplits(r)
+	// Tiny writes on a multi-megabyte payload are hundreds of thousands of
+	// writes (each a round trip in legacy mode): the transfer would outlast the
+	// observation bound without anything being wrong.  Keep it to ~20 000.
+	scale := func(splits []int, total int) []int {
+		for {
+			sum := 0
+			for _, x := range splits {
+				sum += x
+			}
+			if sum == 0 || total/(sum/len(splits)+1) <= 20000 {
+				return splits
+			}
+			for i := range splits {
+				splits[i] *= 16
+			}
+		}
+	}
+	csplits, asplits = scale(csplits, c2a), scale(asplits, a2c)
 	if r.Intn(4) == 0 { // cut inside the hello too
 		csplits = append([]int{1, 2, 2, 1 + r.Intn(len(hello))}, csplits...)
 	}
